@@ -38,6 +38,7 @@ def main(argv=None):
     sd = sub.add_parser("seeded")
     sd.add_argument("--prop", default=None)
     sd.add_argument("--all-props", action="store_true")
+    sd.add_argument("-j", type=int, default=16)
     args = ap.parse_args(argv)
 
     if args.cmd == "check":
@@ -109,7 +110,7 @@ def main(argv=None):
     if args.cmd == "seeded":
         from .seeded import run_seeded
 
-        return run_seeded(prop=args.prop, all_props=args.all_props)
+        return run_seeded(prop=args.prop, all_props=args.all_props, jobs=args.j)
 
 
 def assert_no_scenic():
